@@ -271,14 +271,24 @@ int poll(struct pollfd *fds, nfds_t n, int timeout)
 	resolve();
 	if (!free_running && timeout == -1 && loop && pthread_equal(pthread_self(), server_thr) && n == 1 &&
 	    fds[0].fd >= 0 && fds[0].fd < MAXFD && role[fds[0].fd] == R_SS) {
-		/* the server waits for a notification byte the parked client still owes */
-		pthread_mutex_lock(&cl_mu);
-		if (cl_state == CL_PARKED) {
-			cl_state = CL_RUN;
-			cl_resume = 1;
-			pthread_cond_broadcast(&cl_cv);
+		/* the server waits for a notification byte the parked client still owes: release the
+		 * client (the library's client spins on EAGAIN there, it never sleeps), and keep doing so
+		 * while waiting -- the released client may find the socket still full (the server has
+		 * not read yet) and park again just after this check */
+		for (;;) {
+			int pr;
+			pthread_mutex_lock(&cl_mu);
+			if (cl_state == CL_PARKED) {
+				cl_state = CL_RUN;
+				cl_resume = 1;
+				pthread_cond_broadcast(&cl_cv);
+			}
+			pthread_mutex_unlock(&cl_mu);
+			pr = real_poll(fds, n, 20);
+			if (pr != 0) {
+				return pr;
+			}
 		}
-		pthread_mutex_unlock(&cl_mu);
 	}
 	return real_poll(fds, n, timeout);
 }
